@@ -96,24 +96,40 @@ structure Interp1 (α : Type) where
   data : NdArr α
   strat : Strat1 α
 
-/-- `Interp1DBuilder::build`; `x = none` is the default axis of `Interp1DBuilder::new` -/
-def build1 (x : Option (List α)) (data : NdArr α) (spec : Strat1Spec α) :
-    Except Fault (Interp1 α) := do
+/-- the validation chain of `Interp1DBuilder::build` (in source order); returns the axis.
+    `x = none` is the default axis of `Interp1DBuilder::new`. -/
+def validate1 (minLen : Nat) (x : Option (List α)) (data : NdArr α) : Except Fault (List α) := do
   let xs := x.getD (defaultAxis (data.shape.headD 0))
   if data.shape.length < 1 then throw (.builder .shapeError)
   let len := data.shape.headD 0
-  if len < spec.minLen then throw (.builder .notEnoughData)
+  if len < minLen then throw (.builder .notEnoughData)
   match monotonicProp xs with
   | .error e => throw e
   | .ok (.rising true) => pure ()
   | .ok _ => throw (.builder .monotonic)
   if xs.length ≠ len then throw (.builder .shapeError)
-  let strat ←
-    match spec with
-    | .linear ext => pure (Strat1.linear ext)
-    | .spline ext bc => do
-      let s ← splineBuild ext bc xs data
-      pure (Strat1.spline s)
+  pure xs
+
+/-- `Interp1DBuilder::build` with a user-defined strategy builder `sb`
+    (`MINIMUM_DATA_LENGHT = minLen`, `sb xs data = strategy.build(&x, &data)`) -/
+def buildCustom1 {σ : Type} (minLen : Nat) (sb : List α → NdArr α → Except Fault σ)
+    (x : Option (List α)) (data : NdArr α) : Except Fault (List α × NdArr α × σ) := do
+  let xs ← validate1 minLen x data
+  let strat ← sb xs data
+  pure (xs, data, strat)
+
+/-- the built-in strategy builders -/
+def builtin1 (spec : Strat1Spec α) (xs : List α) (data : NdArr α) : Except Fault (Strat1 α) :=
+  match spec with
+  | .linear ext => pure (Strat1.linear ext)
+  | .spline ext bc => do
+    let s ← splineBuild ext bc xs data
+    pure (Strat1.spline s)
+
+/-- `Interp1DBuilder::build` -/
+def build1 (x : Option (List α)) (data : NdArr α) (spec : Strat1Spec α) :
+    Except Fault (Interp1 α) := do
+  let (xs, data, strat) ← buildCustom1 spec.minLen (builtin1 spec) x data
   pure { xs, data, strat }
 
 /-- `strategy.interp_into(self, target, q)`: the row written to the target -/
@@ -129,9 +145,9 @@ structure Interp2 (α : Type) where
   data : NdArr α
   ext : Bool
 
-/-- `Interp2DBuilder::build` -/
-def build2 (x y : Option (List α)) (data : NdArr α) (ext : Bool) (minLen : Nat := 2) :
-    Except Fault (Interp2 α) := do
+/-- the validation chain of `Interp2DBuilder::build` (in source order); returns both axes -/
+def validate2 (minLen : Nat) (x y : Option (List α)) (data : NdArr α) :
+    Except Fault (List α × List α) := do
   let xs := x.getD (defaultAxis (data.shape.headD 0))
   let ys := y.getD (defaultAxis ((data.shape.drop 1).headD 0))
   if data.shape.length < 2 then throw (.builder .shapeError)
@@ -149,6 +165,19 @@ def build2 (x y : Option (List α)) (data : NdArr α) (ext : Bool) (minLen : Nat
   | .error e => throw e
   | .ok (.rising true) => pure ()
   | .ok _ => throw (.builder .monotonic)
+  pure (xs, ys)
+
+/-- `Interp2DBuilder::build` with a user-defined strategy builder -/
+def buildCustom2 {σ : Type} (minLen : Nat) (sb : List α → List α → NdArr α → Except Fault σ)
+    (x y : Option (List α)) (data : NdArr α) : Except Fault (List α × List α × NdArr α × σ) := do
+  let (xs, ys) ← validate2 minLen x y data
+  let strat ← sb xs ys data
+  pure (xs, ys, data, strat)
+
+/-- `Interp2DBuilder::build` (Bilinear: `MINIMUM_DATA_LENGHT = 2`, its `build` cannot fail) -/
+def build2 (x y : Option (List α)) (data : NdArr α) (ext : Bool) (minLen : Nat := 2) :
+    Except Fault (Interp2 α) := do
+  let (xs, ys, data, ext) ← buildCustom2 minLen (fun _ _ _ => pure ext) x y data
   pure { xs, ys, data, ext }
 
 def Interp2.at (it : Interp2 α) (x y : α) : Except Fault (List α) :=
